@@ -104,7 +104,7 @@ theorem inv_openDestErr {s : St α} (b : Base c s) (h1 : s.success = false) (h2 
   unfold openDestErr
   split
   · exact Base.toInv (keep% b) (by simp only [PcInv]; exact ⟨h1, h2⟩)
-  · exact inv_ioFail b
+  · refine inv_ioFail ?_; exact keep% b
 
 theorem exec_openDir (hpc : s.pc = .openDir) : Inv c (exec c s) := by
   have b := i.toBase hl
@@ -581,11 +581,12 @@ theorem inv_start {c : Cfg α} (hsp : SparseOk c.zero c.ops) (de : Bool) (k0 e0 
   have b : Base c (start0 c de k0 e0) := by
     refine ⟨?_, by simp [start0, inoSrc, inoOwn], rfl, by simp [start0], by simp [start0], by simp [start0], by simp [start0]⟩
     cases de <;> simp [start0, inoPre, inoSrc]
-  have e : start c de k0 e0 = if c.o.stdin then continueLoop c (start0 c de k0 e0) else start0 c de k0 e0 := rfl
+  have e : start c de k0 e0 =
+      if c.o.stdin then continueLoop c (start0 c de k0 e0) else { start0 c de k0 e0 with blk := (start0 c de k0 e0).blk + 1 } := rfl
   rw [e]
   split
   · exact inv_continueLoop hsp b (by simp [start0]) (by simp [start0])
-  · exact Base.toInv b (by simp [PcInv, start0])
+  · exact Base.toInv (keep% b) (by simp [PcInv, start0])
 
 theorem inv_run {c : Cfg α} (hsp : SparseOk c.zero c.ops) (de : Bool) (n : Nat) : Inv c (run c de n) :=
   inv_runN hsp n _ (inv_start hsp de 0 0)
